@@ -42,6 +42,8 @@ pub fn uci_talk() -> anyhow::Result<()> {
     let mut search_thread: Option<JoinHandle<()>> = None;
     let mut search_is_running = Arc::new(AtomicBool::new(false));
 
+    #[cfg(daniel729_chess_verif)]
+    use crate::verif_hooks::stdin;
     'main_loop: for line in stdin().lines() {
         let line = line.context("Failed to read line from stdin")?;
 
@@ -53,13 +55,21 @@ pub fn uci_talk() -> anyhow::Result<()> {
                     command_uci();
                 }
                 "ucinewgame" => {
+                    #[cfg(daniel729_chess_verif)]
+                    crate::verif_hooks::point("main_load_flag");
                     if search_is_running.load(Relaxed) {
                         let thread =
                             search_thread.context("There should a search thread running")?;
+                        #[cfg(daniel729_chess_verif)]
+                        crate::verif_hooks::point("main_store_flag");
                         search_is_running.store(false, Relaxed);
+                        #[cfg(daniel729_chess_verif)]
+                        crate::verif_hooks::point_join("main_join", &thread);
                         thread.join().unwrap();
                         search_thread = None;
                     }
+                    #[cfg(daniel729_chess_verif)]
+                    crate::verif_hooks::point_lock("main_lock", &*data);
                     let mut data = data.lock().unwrap();
                     command_ucinewgame(&mut data);
                 }
@@ -67,9 +77,13 @@ pub fn uci_talk() -> anyhow::Result<()> {
                     command_isready();
                 }
                 "position" => {
+                    #[cfg(daniel729_chess_verif)]
+                    crate::verif_hooks::point("main_load_flag");
                     if search_is_running.load(Relaxed) {
                         println!("error: search is still running, enter 'stop' to stop it");
                     } else {
+                        #[cfg(daniel729_chess_verif)]
+                        crate::verif_hooks::point_lock("main_lock", &*data);
                         let mut data = data.lock().unwrap();
                         if let Err(err) = command_position(&mut data, &mut terms) {
                             println!("error: {}", err);
@@ -77,6 +91,8 @@ pub fn uci_talk() -> anyhow::Result<()> {
                     }
                 }
                 "go" => {
+                    #[cfg(daniel729_chess_verif)]
+                    crate::verif_hooks::point("main_load_flag");
                     if search_is_running.load(Relaxed) {
                         println!("error: search is still running, enter 'stop' to stop it");
                     } else {
@@ -90,9 +106,13 @@ pub fn uci_talk() -> anyhow::Result<()> {
                     }
                 }
                 "show" | "d" => {
+                    #[cfg(daniel729_chess_verif)]
+                    crate::verif_hooks::point("main_load_flag");
                     if search_is_running.load(Relaxed) {
                         println!("error: search is still running, enter 'stop' to stop it");
                     } else {
+                        #[cfg(daniel729_chess_verif)]
+                        crate::verif_hooks::point_lock("main_lock", &*data);
                         let data = data.lock().unwrap();
                         if let Err(err) = command_show(&data) {
                             println!("error: {}", err);
@@ -100,16 +120,24 @@ pub fn uci_talk() -> anyhow::Result<()> {
                     }
                 }
                 "stop" => {
+                    #[cfg(daniel729_chess_verif)]
+                    crate::verif_hooks::point("main_store_flag");
                     search_is_running.store(false, Relaxed);
                     if let Some(thread) = search_thread {
+                        #[cfg(daniel729_chess_verif)]
+                        crate::verif_hooks::point_join("main_join", &thread);
                         thread.join().unwrap();
                         search_thread = None;
                     }
                 }
                 "wait" => {
                     if let Some(thread) = search_thread {
+                        #[cfg(daniel729_chess_verif)]
+                        crate::verif_hooks::point_join("main_join", &thread);
                         thread.join().unwrap();
                         search_thread = None;
+                        #[cfg(daniel729_chess_verif)]
+                        crate::verif_hooks::point("main_store_flag");
                         search_is_running.store(false, Relaxed);
                     }
                 }
@@ -156,6 +184,8 @@ fn command_go(
     terms: &mut SplitAsciiWhitespace<'_>,
     search_is_running: &Arc<AtomicBool>,
 ) -> anyhow::Result<JoinHandle<()>> {
+    #[cfg(daniel729_chess_verif)]
+    crate::verif_hooks::point_lock("main_lock", &**data_mutex);
     let mut data = data_mutex.lock().unwrap();
     let Some(game) = data.current_game.as_mut() else {
         bail!("No game to play, please set a position first");
@@ -216,13 +246,21 @@ fn command_go(
             let time = time.saturating_sub(Duration::from_millis(5));
 
             println!("info time {:?}", time.as_millis());
+            #[cfg(daniel729_chess_verif)]
+            let time = crate::verif_hooks::timer_override(time);
+            #[cfg(daniel729_chess_verif)]
+            crate::verif_hooks::will_spawn();
 
             // This thread might stop a future search if the current one stops by itself
             // Thus when a new search is started, a new atomic bool is created
             thread::spawn({
                 let search_is_running = search_is_running.clone();
                 move || {
+                    #[cfg(daniel729_chess_verif)]
+                    let _scope = crate::verif_hooks::ThreadScope::enter("timer");
                     thread::sleep(time);
+                    #[cfg(daniel729_chess_verif)]
+                    crate::verif_hooks::point("timer_store_flag");
                     search_is_running.store(false, Relaxed);
                 }
             });
@@ -230,10 +268,18 @@ fn command_go(
     }
 
     let thread = thread::spawn({
+        #[cfg(daniel729_chess_verif)]
+        crate::verif_hooks::point("main_raise_flag");
         search_is_running.store(true, Relaxed);
+        #[cfg(daniel729_chess_verif)]
+        crate::verif_hooks::will_spawn();
         let data_mutex = data_mutex.clone();
         let search_is_running = search_is_running.clone();
         move || {
+            #[cfg(daniel729_chess_verif)]
+            let _scope = crate::verif_hooks::ThreadScope::enter("search");
+            #[cfg(daniel729_chess_verif)]
+            crate::verif_hooks::point_lock("search_lock", &*data_mutex);
             let mut data = data_mutex.lock().unwrap();
             let (current_game, cache) = data.mut_refs();
             let best_move = get_best_move_until_stop(
@@ -243,14 +289,20 @@ fn command_go(
                 depth,
             );
 
+            #[cfg(daniel729_chess_verif)]
+            crate::verif_hooks::point("search_print_bestmove");
             if let Some(best_move) = best_move {
                 println!("bestmove {}", best_move.uci_notation());
             } else {
                 println!("bestmove none");
             }
 
+            #[cfg(daniel729_chess_verif)]
+            crate::verif_hooks::point("search_clear_flag");
             search_is_running.store(false, Relaxed);
             *current_game = None;
+            #[cfg(daniel729_chess_verif)]
+            crate::verif_hooks::point("search_unlock");
         }
     });
 
